@@ -33,11 +33,23 @@ EXTRA = {
     "NE1": ["C09"],                  # a wrong recorded entry position makes the next flush overwrite another file's entry
     "SD1": ["C13"],                  # response masks / tokens decide what counts as "accepted"
     "FA1": ["C03"],                  # a start cluster cut to 16 bits frees / cross-links somebody else's chain
-    "LS3": ["C07"],                  # lookup must see every live entry: 'exists' decides create / FileAlreadyExists / NotFound
+    "LS3": ["C07", "C02"],                  # lookup must see every live entry: 'exists' decides create / FileAlreadyExists / NotFound
     "RL1": ["C11"],                  # a failed call must not leave an unclosable handle behind (API wedged)
     "SD17": ["C12"],                 # stray bytes on MOSI during a multi-block read can be a STOP_TRANSMISSION frame
-    "FT2": ["C10"],                  # a mirror write at the wrong block overwrites the root directory / data
-    "FT12": ["C10"],          # a frame without a valid CRC-7 is rejected by cards that check it (CMD0/CMD8 always do)   # create only when the name is definitively absent (no error masquerading as NotFound): unique names
+    "FT2": ["C10", "C01", "C02", "C09"],   # a mirror write at the wrong block overwrites the root directory / data
+    "FT12": ["C10"],
+    # --- consequences spelled out (a violated structural rule breaks every property that relies on the structure)
+    "MT2": ["C02", "C04"], "MT3": ["C02", "C04"], "MT6": ["C02", "C04"],   # wrong geometry: an independent reader disagrees; writes land in the wrong region
+    "FT3": ["C01", "C02", "C09"], "FT4": ["C01", "C02", "C09"],          # a FAT entry written at the wrong place / width cross-links or loses chains
+    "LS1": ["C02"], "LS2": ["C02"],                                        # a fresh mount lists the flushed files
+    "LS5": ["C01", "C02", "C03"], "CD4": ["C01", "C02", "C03"],           # a wrongly decoded start cluster reads / frees somebody else's chain
+    "WR1": ["C02", "C09"], "SK5": ["C02"],                                 # what write() puts on the medium is what a fresh mount reads
+    "BC2": ["C02", "C09"], "BC3": ["C02"], "BC5": ["C02"],
+    "DK1": ["C01"],                                                        # everything reported as written is readable
+    "DD1": ["C06", "C10"],                                                 # '.' and '..' lead to the directory they designate
+    "CR1": ["C14", "C12"], "CR2": ["C13", "C14", "C12"],                   # the checksums the frames / the read check rely on
+    "CD2": ["C02"], "CD3": ["C06", "C07"], "CD5": ["C06"],                 # stored mtime; names decide lookups
+    "MT0": ["C04"],          # a frame without a valid CRC-7 is rejected by cards that check it (CMD0/CMD8 always do)   # create only when the name is definitively absent (no error masquerading as NotFound): unique names
 }
 for _r, _ps in EXTRA.items():
     if _r in RULES:
